@@ -265,6 +265,14 @@ def rule_rules(run, db):
                 return dom3.sym('alphas')
             return None
         dom3.call_prysm = call_prysm
+        oit3 = dom3.iterate
+
+        def iterate3(v, node, dom3=dom3, oit3=oit3):
+            # `sums, sums_der = clenshaw_..._der(...)`: the rows of the table
+            if dom3.rat(v) is not None and dom3.rat(v).key() == 'alphas':
+                return [dom3.interp.subscript(v, Const(0), node), dom3.interp.subscript(v, Const(1), node)]
+            return oit3(v, node)
+        dom3.iterate = iterate3
         res = returns(it3.run(f, kwargs=lambda: {'coefs': dom3.sym('coefs'), 'u': Sym(u), 'usq': Sym(u * u)}), f)
         v = res[0].value
         if not (isinstance(v, Tup) and len(v.items) == 2):
